@@ -106,9 +106,10 @@ def extract() -> tuple[dict[str, Any], list[str]]:
         out["limiterAtomic"] = atomic
         resp = set()
         for cls in ("AccessControl", "CertificateAuth"):
-            f = _func(mw, cls, "process_request")
-            if f:
-                resp |= {s for s in _strs(f) if s.endswith("\r\n")}
+            # every response line literal anywhere in the class (process_request or a private helper it delegates to)
+            for c in ast.walk(mw):
+                if isinstance(c, ast.ClassDef) and c.name == cls:
+                    resp |= {s for s in _strs(c) if s.endswith("\r\n")}
         out["mwResponses"] = sorted(resp)
     except Exception as e:  # noqa: BLE001
         problems.append(f"middleware.py: {e}")
